@@ -90,7 +90,7 @@ def gen_history(rng, thorough):
       overwrite = False     # keep most Orbax histories outside the F14 region
     saves.append({'step': step, 'payload': payload, 'keep': rng.choice([0, 1, 1, 2, 2, 3, 4]), 'overwrite': overwrite,
                   'every': rng.choice([None, None, 2, 5, 10]), 'crash': (rng.randint(0, 7) if i == crash_at else None)})
-  return {'prefix': rng.choice(['checkpoint_', 'model', 'ckpt_']), 'orbax': orbax, 'saves': saves, 'async': (not orbax) and rng.random() < 0.7 and crash_at is None}
+  return {'prefix': rng.choice(['checkpoint_', 'model', 'ckpt_']), 'orbax': orbax, 'saves': saves, 'async': (not orbax) and rng.random() < 0.7 and crash_at is None, 'overlap': rng.random() < 0.7}
 
 
 def distinct_step_values(h):
@@ -156,6 +156,9 @@ def run(chk):
       listed = [(e[0][1], e[1], e[2]) for e in r['snapshot'] if e[0][0] == 'step']
       api = r['api']
       was_crash = r['outcome'] == 'crash'
+      if not r.get('settled', True):
+        prev_latest = None
+        q_every = None
       ncrash += was_crash
       f14 = in_f14_region(h, i)
       # ---- oracles on the implementation alone
@@ -202,7 +205,7 @@ def run(chk):
       lat = copt(None if api['latest'] is None else cq(api['latest']))
       rl = api['restore_latest']
       rlat = 'RNone' if rl is None else ('RBroken' if isinstance(rl, str) else '(RPayload %s)' % cN(rl))
-      rows.append(cpair(q, copt(None if sv['crash'] is None else cnat(sv['crash'])), snap, oc, clist([KIND[k] for k in r['ops']]), lat, rlat))
+      rows.append(cpair(q, copt(None if sv['crash'] is None else cnat(sv['crash'])), snap, oc, clist([KIND[k] for k in r['ops']]), lat, rlat, cbool(r.get('settled', True)), cbool(not (h.get('async') and h.get('overlap')))))
     if not h.get('async'):
       coq.append((h, o, clist(rows)))
     else:
@@ -224,22 +227,22 @@ Definition entry_eqv (n : fname) (a b : entry) : bool :=
 Definition dir_eqv (a b : dir) : bool :=
   Nat.eqb (length a) (length b) &&
   forallb (fun ne => match dlookup (fst ne) b with Some e => entry_eqv (fst ne) (snd ne) e | None => false end) a.
-Definition row := (req * option nat * dir * oc * list okind * option Z * rl)%type.
+Definition row := (req * option nat * dir * oc * list okind * option Z * rl * bool * bool)%type.
 Fixpoint replay (d : dir) (rows : list row) : bool :=
   match rows with
   | [] => true
-  | (q, crash, snap, o, kinds, lat, r) :: rest =>
+  | (q, crash, snap, o, kinds, lat, r, settled, cmpk) :: rest =>
       let '(mo, ops) := save_ops d q in
       let ops' := match crash with Some k => firstn k ops | None => ops end in
       let d' := exec_ops ops' d in
-      dir_eqv d' snap &&
+      (if settled then dir_eqv d' snap else true) &&
       (match mo, o with Saved, OSaved => true | ErrExists, ORejected | ErrOlder, ORejected => true | _, _ => false end) &&
-      list_beq okind_beq (map kind_of ops') kinds &&
-      (match latest d', lat with
+      (if cmpk then list_beq okind_beq (map kind_of ops') kinds else true) &&
+      (if negb settled then true else match latest d', lat with
        | None, None => true
        | Some (NStep s), Some s' => Z.eqb s s'
        | _, _ => false end) &&
-      (match latest d', r with
+      (if negb settled then true else match latest d', r with
        | None, RNone => true
        | Some n, RPayload p => option_beq N.eqb (restore d' n) (Some p)
        | Some n, RBroken => match restore d' n with None => true | Some _ => false end
